@@ -627,3 +627,27 @@ func derivesFrom(v, src ssa.Value) bool {
 	}
 	return false
 }
+
+// phiIncludes: v is x, or a phi (of phis) one of whose incoming values is x.
+func phiIncludes(v, x ssa.Value) bool {
+	seen := map[ssa.Value]bool{}
+	var visit func(v ssa.Value) bool
+	visit = func(v ssa.Value) bool {
+		if v == x {
+			return true
+		}
+		if seen[v] {
+			return false
+		}
+		seen[v] = true
+		if phi, ok := v.(*ssa.Phi); ok {
+			for _, e := range phi.Edges {
+				if visit(e) {
+					return true
+				}
+			}
+		}
+		return false
+	}
+	return visit(v)
+}
